@@ -1,2 +1,3 @@
+#![feature(linkage)]
 pub mod driver;
 pub mod model;
